@@ -25,7 +25,7 @@ type c15Case struct {
 	Schedule []int   `json:"schedule,omitempty"` // choice prefix (default choice afterwards)
 }
 
-var c15OpNames = []string{"String(ok)", "String(runtime error)", "String(unknown)", "Response(ok)", "Response(error)", "EvaluateString(ok)", "EvaluateString(error)", "EvaluateFile", "String(sink)", "String(assign,nil)", "String(assign2,nil)"}
+var c15OpNames = []string{"String(ok)", "String(runtime error)", "String(unknown)", "Response(ok)", "Response(error)", "EvaluateString(ok)", "EvaluateString(error)", "EvaluateFile", "String(sink)", "String(assign,nil)", "String(assign2,nil)", "String(failloop)", "String(loops)"}
 
 // c15Op runs operation op with the data of thread tid and returns a canonical result.
 func c15Op(tpl *textwire.Template, t Tree, op, tid int) string {
@@ -111,6 +111,18 @@ func c15Op(tpl *textwire.Template, t Tree, op, tid int) string {
 		}
 		res = safe(func() string {
 			out, e := tpl.String(name, nil)
+			if e != nil {
+				return outcomeKey(failOutcome(e))
+			}
+			return "out|" + out
+		})
+	case 11, 12:
+		name := "failloop"
+		if op == 12 {
+			name = "loops"
+		}
+		res = safe(func() string {
+			out, e := tpl.String(name, d)
 			if e != nil {
 				return outcomeKey(failOutcome(e))
 			}
@@ -358,9 +370,14 @@ func c15Run(c *Ctx) {
 	for a := 0; a < nops; a++ {
 		seqs = append(seqs, []int{a})
 	}
+	isStateful := func(op int) bool { return op == 4 || op == 5 || op == 6 || op == 7 || op == 9 || op == 11 }
 	if maxOps >= 2 {
 		for a := 0; a < nops; a++ {
 			for b := 0; b < nops; b++ {
+				// quick tier: two-operation sequences over the operations that touch shared or per-call state
+				if !c.Thorough() && !(isStateful(a) && isStateful(b)) {
+					continue
+				}
 				seqs = append(seqs, []int{a, b})
 			}
 		}
@@ -384,7 +401,11 @@ func c15Run(c *Ctx) {
 			return true
 		}
 		for attempt := 0; attempt < 4; attempt++ {
-			ex := &schedExplorer{bound: bound, maxExec: 20000}
+			b := bound
+			if len(threads) == 2 {
+				b = -1 // two goroutines: all interleavings
+			}
+			ex := &schedExplorer{bound: b, maxExec: 20000}
 			reclose := false
 			distinctRes := 0
 			ex.explore(func(prefix []int) schedRun {
@@ -449,9 +470,24 @@ func c15Run(c *Ctx) {
 					}
 					continue
 				}
+				// thorough: all 2-goroutine scenarios as in the quick tier …
+				if !runScenario(cfgBits, [][]int{seqs[i], seqs[j]}) {
+					return
+				}
 				for k := j; k < len(seqs); k++ {
-					// three goroutines: one of them runs a single operation (keeps the scenario count at ~10^5)
-					if len(seqs[i]) > 1 && len(seqs[j]) > 1 && len(seqs[k]) > 1 {
+					// … plus three goroutines: single operations (every multiset), and one goroutine with two
+					// operations when all operations are among those that touch shared or per-call state
+					long := 0
+					stateful := true
+					for _, sq := range [][]int{seqs[i], seqs[j], seqs[k]} {
+						if len(sq) > 1 {
+							long++
+						}
+						for _, op := range sq {
+							stateful = stateful && (op == 4 || op == 5 || op == 6 || op == 7 || op == 9 || op == 11)
+						}
+					}
+					if long > 1 || (long == 1 && !stateful) {
 						continue
 					}
 					if !runScenario(cfgBits, [][]int{seqs[i], seqs[j], seqs[k]}) {
@@ -496,9 +532,9 @@ func init() {
 		Rule:  "schedule exploration on the real code under a cooperative scheduler: 2 goroutines x 1-2 operations (all interleavings) / 3 goroutines with a preemption bound, operations from {String ok / run-time error / unknown, Response ok / error (built-in or custom error page), EvaluateString ok / error, EvaluateFile} on one loaded tree with a layout, a component in a loop and slots, each goroutine with its own data; scheduling points are the accesses (inserted by the instrumenter) to every package-level variable that some operation writes, every atomic operation and every mutex operation (sync / sync/atomic are replaced by scheduler-aware shims). Oracles on every schedule: each call returns its run-alone result; no two accesses to a package-level variable from different goroutines, one of them a definite write, unordered by happens-before (vector clocks over spawn, mutex and atomic edges); the loaded ASTs, configuration and registry are unchanged. Violating schedules are replayed twice before they are reported. Supplementary: the same operations on real goroutines in a -race build (GOMAXPROCS 1/4/16)",
 		Bounds: func(tier string) map[string]any {
 			if tier == "thorough" {
-				return map[string]any{"goroutines": 3, "ops_per_goroutine": "1-2 (at most two goroutines with 2)", "preemption_bound": 3, "operations": len(c15OpNames), "load_configurations": 2}
+				return map[string]any{"goroutines": "2 (all interleavings) and 3 (single operations: every multiset; one goroutine with two operations over the six stateful operations)", "preemption_bound_3_goroutines": 3, "operations": len(c15OpNames), "load_configurations": 2}
 			}
-			return map[string]any{"goroutines": 2, "ops_per_goroutine": "1-2", "preemption_bound": "none (all interleavings)", "operations": len(c15OpNames), "load_configurations": 2}
+			return map[string]any{"goroutines": 2, "ops_per_goroutine": "1 (all 13 operations) or 2 (over the six operations that touch shared or per-call state)", "preemption_bound": "none (all interleavings)", "operations": len(c15OpNames), "load_configurations": 2}
 		},
 		Assume: []string{
 			"sequentially consistent interleavings at the instrumented points; justified by DRF-SC once the race oracle holds (if it does not hold, that is the violation)",
